@@ -72,3 +72,82 @@ func ZZ_C19_node_annotation() {
 	tid, hasT := k8sNode.Annotations[types.TrunkOn]
 	zz.Assert(zz.Implies(hasT, zz.And(tid == "eni-t", node.Spec.ENISpec.EnableTrunk, !exclusive)), "the trunk annotation only ever names an attached trunk interface of a trunk-enabled node")
 }
+
+type zzK8sStatusClient struct {
+	client.Client
+	patched *corev1.Node
+}
+
+func (c *zzK8sStatusClient) Status() client.SubResourceWriter { return &zzK8sStatusWriter{c: c} }
+
+type zzK8sStatusWriter struct {
+	client.SubResourceWriter
+	c *zzK8sStatusClient
+}
+
+func (w *zzK8sStatusWriter) Patch(ctx context.Context, obj client.Object, patch client.Patch, opts ...client.SubResourcePatchOption) error {
+	w.c.patched = obj.(*corev1.Node)
+	return nil
+}
+
+// C19(e): the extended resources the controller reports on the node.  In
+// exclusive-ENI mode the number of ENI devices is the number of standard
+// secondary slots of the flavor (hence at most the attachable secondary
+// interfaces); otherwise member-ENI devices are reported only on a
+// trunk-enabled node whose trunk interface is attached and in use, and then
+// exactly the member-adapter limit of the instance type; nothing is reported
+// for a node whose configuration is not published yet.
+// zz:noreplay client.MergeFrom / patch plumbing runs against an engine-side fake
+func ZZ_C19_node_resources() {
+	adapters := zz.IntRange("cap.adapters", 1, 16)
+	nSec, nTrunk := zz.IntRange("flavor.secondary", 0, 16), zz.IntRange("flavor.trunk", 0, 1)
+	zz.Assume(nSec+nTrunk <= adapters-1) // what the daemon publishes (ZZ_C19_node_cr_flavor)
+	members := zz.IntRange("cap.member", 0, 64)
+	node := &networkv1beta1.Node{ObjectMeta: metav1.ObjectMeta{Name: "n1", Labels: map[string]string{}}}
+	node.Spec.NodeCap = networkv1beta1.NodeCap{Adapters: adapters, MemberAdapterLimit: members}
+	published := zz.Bool("config.published")
+	trunkOn := zz.Bool("enableTrunk")
+	if published {
+		node.Spec.ENISpec = &networkv1beta1.ENISpec{EnableTrunk: trunkOn}
+	}
+	node.Spec.Flavor = []networkv1beta1.Flavor{
+		{NetworkInterfaceType: networkv1beta1.ENITypeTrunk, NetworkInterfaceTrafficMode: networkv1beta1.NetworkInterfaceTrafficModeStandard, Count: nTrunk},
+		{NetworkInterfaceType: networkv1beta1.ENITypeSecondary, NetworkInterfaceTrafficMode: networkv1beta1.NetworkInterfaceTrafficModeHighPerformance, Count: 1},
+		{NetworkInterfaceType: networkv1beta1.ENITypeSecondary, NetworkInterfaceTrafficMode: networkv1beta1.NetworkInterfaceTrafficModeStandard, Count: nSec},
+	}
+	exclusive := zz.Bool("exclusive")
+	if exclusive {
+		node.Labels[types.ExclusiveENIModeLabel] = string(types.ExclusiveENIOnly)
+	}
+	trunkReady := false
+	switch zz.Fork("trunk.eni", 3) {
+	case 1:
+		node.Status.NetworkInterfaces = map[string]*networkv1beta1.NetworkInterface{"eni-t": {ID: "eni-t", NetworkInterfaceType: networkv1beta1.ENITypeTrunk, Status: aliyunClient.ENIStatusInUse}}
+		trunkReady = true
+	case 2:
+		node.Status.NetworkInterfaces = map[string]*networkv1beta1.NetworkInterface{"eni-t": {ID: "eni-t", NetworkInterfaceType: networkv1beta1.ENITypeTrunk, Status: aliyunClient.ENIStatusAttaching},
+			"eni-s": {ID: "eni-s", NetworkInterfaceType: networkv1beta1.ENITypeSecondary, Status: aliyunClient.ENIStatusInUse}}
+	}
+	k8sNode := &corev1.Node{ObjectMeta: metav1.ObjectMeta{Name: "n1"}}
+	cl := &zzK8sStatusClient{}
+	r := &ReconcileNode{client: cl}
+	err := r.patchNodeRes(context.Background(), k8sNode, node)
+	zz.Assert(err == nil, "reporting succeeds")
+	eniQ, hasENI := k8sNode.Status.Allocatable["aliyun/eni"]
+	memQ, hasMem := k8sNode.Status.Allocatable["aliyun/member-eni"]
+	if !published {
+		zz.Assert(!hasENI && !hasMem && cl.patched == nil, "nothing is reported before the node's configuration is published")
+		return
+	}
+	if exclusive {
+		zz.Assert(!hasMem, "no member-ENI devices in exclusive-ENI mode")
+		zz.Assert(hasENI == (nSec > 0) && (!hasENI || eniQ.Value() == int64(nSec)), "exclusive-ENI devices: one per standard secondary slot of the flavor")
+		zz.Assert(nSec <= adapters-1, "hence never more than the attachable secondary interfaces")
+	} else {
+		zz.Assert(!hasENI, "no exclusive-ENI devices outside exclusive-ENI mode")
+		report := trunkOn && trunkReady && members > 0
+		zz.Assert(hasMem == report && (!hasMem || memQ.Value() == int64(members)), "member-ENI devices only with trunking enabled and the trunk interface in use, and then exactly the type's member-adapter limit")
+	}
+	capQ, hasCap := k8sNode.Status.Capacity["aliyun/eni"]
+	zz.Assert(hasCap == hasENI && (!hasCap || capQ.Value() == eniQ.Value()), "capacity and allocatable agree")
+}
